@@ -19,7 +19,11 @@ RULE = ("case kinds: 'free' = 1-6 (thorough 9) targets with arbitrary input/outp
         "invalid workflow every CLI command exits non-zero and leaves files, state and the simulated scheduler's "
         "mutating-command log unchanged; valid deep/wide workflows build, report status, dry-run, run and touch without "
         "an exception and agree with the model. Non-trivial: >=3 targets and (exactly one defect kind applies, or "
-        "valid with dependency depth >=3). Distinct = SHA-1 of canonical case JSON.")
+        "valid with dependency depth >=3). "
+        "Also: the commands restricted to a named target or pattern (cancel/touch/clean/status/info <name>) "
+        "with a tracked job present; PathLike spellings; chains with a collector target reading every step "
+        "and names sorting against the chain; invocation styles of project.Project. "
+        "Distinct = SHA-1 of canonical case JSON.")
 ASSUMPTIONS = [
     "one target never lists the same file both as input and output unless a self-loop is intended (that is a cycle by the statement)",
     "chains up to 3000 targets (quick: 1500)",
